@@ -12,9 +12,9 @@ PROP = dict(
     rule="case = one generated deck (single keyword cycling through the catalog, then multi-keyword decks incl. TITLE) or one shipped "
          "deck; non-trivial: parses and has >= 1 record; distinct = hash of the input text",
     stages=[
-        dict(id="gen", harness="c19_print", flavour="plain", cases={Q: 40000, T: 600000}, timeout={Q: 900, T: 7200}, args=["mode=gen"]),
+        dict(id="gen", harness="c19_print", flavour="plain", cases={Q: 40000, T: 2000000}, timeout={Q: 900, T: 7200}, args=["mode=gen"]),
         dict(id="shipped", harness="c19_print", flavour="plain", cases={Q: 200, T: 200}, timeout={Q: 900, T: 3600}, args=["mode=shipped"]),
-        dict(id="models", harness="c19_print", flavour="plain", cases={Q: 1200, T: 40000}, timeout={Q: 900, T: 7200}, args=["mode=models"]),
+        dict(id="models", harness="c19_print", flavour="plain", cases={Q: 1200, T: 200000}, timeout={Q: 900, T: 7200}, args=["mode=models"]),
         dict(id="gen_asan", harness="c19_print", flavour="asan", cases={Q: 3000, T: 30000}, timeout={Q: 900, T: 7200}, args=["mode=gen"]),
     ],
     min_nontrivial={Q: 10000, T: 113209},
